@@ -48,45 +48,37 @@ pub fn c03_pynew<const K: usize>(rank: &[usize], inv: &[u64], kcount: usize) {
 }
 
 /// header[p] must be the text of the p-th canonical k-mer in increasing code
-/// order, for EVERY column p.  get_header has no input besides the tables, so
-/// every value is concrete: the columns are walked by a concrete loop and the
-/// symbolic executor decides each comparison (no symbolic heap indexing).
-pub fn c03_pyheader<const K: usize>(rank: &[usize], inv: &[u64], kcount: usize) {
+/// order, for EVERY column p (`ocanon` = compiler-evaluated oracle list of the
+/// canonical codes, verif_support::OCANON_K*).  get_header has no input besides
+/// the tables, so the columns are walked by a concrete loop.
+pub fn c03_pyheader<const K: usize>(rank: &[usize], inv: &[u64], kcount: usize, ocanon: &[u64]) {
     let oc = mk_computer(K, rank, inv, kcount);
     let h = oc.get_header();
-    let total = pow4(K);
-    let mut ncanon = 0usize;
-    let mut z = 0u64;
-    while z < total {
-        if z <= rc_code_oracle(z, K) {
-            // z is the ncanon-th canonical code (oracle): its name must sit in column ncanon
-            let p = ncanon;
-            check!(p < h.len(), "C03: header does not have one name per canonical k-mer");
-            if p < h.len() {
-                let name = h[p].as_bytes();
-                check!(name.len() == K, "C03: a header name does not have k letters");
-                let mut v = 0u64;
-                let mut ok = true;
-                let mut j = 0;
-                while j < K {
-                    if j < name.len() {
-                        let c = name[j];
-                        if !(c == b'A' || c == b'C' || c == b'G' || c == b'T') {
-                            ok = false;
-                        }
-                        v = v * 4 + (code(c) as u64 & 3);
+    check!(h.len() == ocanon.len(), "C03: header does not have one name per canonical k-mer");
+    let mut p = 0usize;
+    while p < ocanon.len() {
+        if p < h.len() {
+            let name = h[p].as_bytes();
+            check!(name.len() == K, "C03: a header name does not have k letters");
+            let mut v = 0u64;
+            let mut ok = true;
+            let mut j = 0;
+            while j < K {
+                if j < name.len() {
+                    let c = name[j];
+                    if !(c == b'A' || c == b'C' || c == b'G' || c == b'T') {
+                        ok = false;
                     }
-                    j += 1;
+                    v = v * 4 + (code(c) as u64 & 3);
                 }
-                check!(ok, "C03: a header name contains a letter outside ACGT");
-                check!(v == z, "C03: header name of a column is not the column's canonical k-mer (column order)");
+                j += 1;
             }
-            ncanon += 1;
+            check!(ok, "C03: a header name contains a letter outside ACGT");
+            check!(v == ocanon[p], "C03: header name of a column is not the column's canonical k-mer (column order)");
         }
-        z += 1;
+        p += 1;
     }
-    check!(h.len() == ncanon, "C03: header does not have one name per canonical k-mer");
-    cover!(ncanon >= 2, "req: two or more columns");
+    cover!(h.len() >= 2, "req: two or more columns");
     cover!(true, "req: end of harness reached");
     core::mem::forget(h);
     core::mem::forget(oc);
